@@ -4,10 +4,10 @@ import PsVerif.Base.SoftFloat
 The operators of `builtin.go` that do not re-enter the interpreter, one definition each,
 in the order of the Go code of each function (operand count, then types, then ranges),
 so that the error reported when several preconditions fail is the one Go reports.
-`State.stack` is top first: Go's `Stack[len-1]` is the head.
+`VM.stack` is top first: Go's `Stack[len-1]` is the head.
 -/
 namespace PsVerif.Model
-open State
+open VM
 
 /-! ### constants (compared with `Generated.Consts` in `Props/Ties.lean`) -/
 def maxArraySize : Int := 65536
@@ -18,8 +18,8 @@ def maxStringSize : Int := 65536
 def maxBindDepth : Nat := 100
 def internalDictPasscode : Int := 1183615869
 
-def psErr (s : State) (n : ErrName) : State × Res := (s, .err (.ps n))
-def okRes (s : State) : State × Res := (s, .ok)
+def psErr (s : VM) (n : ErrName) : VM × Res := (s, .err (.ps n))
+def okRes (s : VM) : VM × Res := (s, .ok)
 
 /-! ### reals: IEEE-754 binary64 on bit patterns (`Base/SoftFloat.lean`) -/
 open PsVerif.Base in
@@ -40,10 +40,10 @@ def feq (a b : UInt64) : Bool := SoftFloat.eq a b
 /-! ### name lookup -/
 
 /-- `intp.load`: search the dictionary stack from the top -/
-def lookupName (s : State) (n : Name) : Option Obj :=
+def lookupName (s : VM) (n : Name) : Option Obj :=
   s.dictStack.findSome? (fun r => s.dictGet r n)
 
-def load (s : State) (key : Obj) : Except Err Obj :=
+def load (s : VM) (key : Obj) : Except Err Obj :=
   match key with
   | .name n | .op n =>
     match lookupName s n with
@@ -53,7 +53,7 @@ def load (s : State) (key : Obj) : Except Err Obj :=
 
 /-! ### stack and mark operators -/
 
-def bMark (s : State) : State × Res := okRes (s.push .mark)
+def bMark (s : VM) : VM × Res := okRes (s.push .mark)
 
 def splitAtMark : List Obj → List Obj → Option (List Obj × List Obj)
   | _, [] => none
@@ -63,7 +63,7 @@ def splitAtMark : List Obj → List Obj → Option (List Obj × List Obj)
 /-- elements above the topmost mark (top first) and the stack below the mark -/
 def toMark (st : List Obj) : Option (List Obj × List Obj) := splitAtMark [] st
 
-def bListEnd (s : State) : State × Res :=
+def bListEnd (s : VM) : VM × Res :=
   match toMark s.stack with
   | none => psErr s "unmatchedmark"
   | some (above, below) =>
@@ -76,7 +76,7 @@ def fillDict : List Obj → List (Name × Obj) → Option (List (Name × Obj))
   | .name k :: v :: rest, d => fillDict rest (dictInsert d k v)
   | _, _ => none
 
-def bDictEnd (s : State) : State × Res :=
+def bDictEnd (s : VM) : VM × Res :=
   match toMark s.stack with
   | none => psErr s "unmatchedmark"
   | some (above, below) =>
@@ -88,29 +88,29 @@ def bDictEnd (s : State) : State × Res :=
         let (s1, r) := s.alloc (.dict d)
         okRes { s1 with stack := .dict r :: below }
 
-def bCleartomark (s : State) : State × Res :=
+def bCleartomark (s : VM) : VM × Res :=
   match toMark s.stack with
   | none => psErr s "unmatchedmark"
   | some (_, below) => okRes { s with stack := below }
 
-def bPop (s : State) : State × Res :=
+def bPop (s : VM) : VM × Res :=
   match s.stack with
   | [] => psErr s "stackunderflow"
   | _ :: rest => okRes { s with stack := rest }
 
-def bDup (s : State) : State × Res :=
+def bDup (s : VM) : VM × Res :=
   match s.stack with
   | [] => psErr s "stackunderflow"
   | a :: rest => okRes { s with stack := a :: a :: rest }
 
-def bExch (s : State) : State × Res :=
+def bExch (s : VM) : VM × Res :=
   match s.stack with
   | a :: b :: rest => okRes { s with stack := b :: a :: rest }
   | _ => psErr s "stackunderflow"
 
-def bCount (s : State) : State × Res := okRes (s.push (.int s.stack.length))
+def bCount (s : VM) : VM × Res := okRes (s.push (.int s.stack.length))
 
-def bIndex (s : State) : State × Res :=
+def bIndex (s : VM) : VM × Res :=
   match s.stack with
   | top :: b :: rest =>
     match top with
@@ -129,7 +129,7 @@ def rollAmount (j n : Int) : Int :=
   let r := Int.tmod j n
   if r < 0 then r + n else r
 
-def bRoll (s : State) : State × Res :=
+def bRoll (s : VM) : VM × Res :=
   match s.stack with
   | jo :: no :: rest =>
     match no with
@@ -152,7 +152,7 @@ def bRoll (s : State) : State × Res :=
 
 /-! ### arithmetic -/
 
-def bAbs (s : State) : State × Res :=
+def bAbs (s : VM) : VM × Res :=
   match s.stack with
   | [] => psErr s "stackunderflow"
   | x :: rest =>
@@ -182,7 +182,7 @@ def mulOverflow (a b c : Int) : Bool :=
   a != 0 && (wrap64 (Int.tdiv c a) != b || (a == -1 && b == minInt64))
 
 def arith (iop : Int → Int → Int) (ovf : Int → Int → Int → Bool) (fop : UInt64 → UInt64 → UInt64)
-    (s : State) : State × Res :=
+    (s : VM) : VM × Res :=
   match s.stack with
   | b :: a :: rest =>
     if !(isNumber a) || !(isNumber b) then psErr s "typecheck"
@@ -206,7 +206,7 @@ def bMul := arith (· * ·) mulOverflow fmul
 def and64 (x y : Int) : Int := (BitVec.ofInt 64 x &&& BitVec.ofInt 64 y).toInt
 def or64 (x y : Int) : Int := (BitVec.ofInt 64 x ||| BitVec.ofInt 64 y).toInt
 
-def bAnd (s : State) : State × Res :=
+def bAnd (s : VM) : VM × Res :=
   match s.stack with
   | b :: a :: rest =>
     let s1 := { s with stack := rest }
@@ -216,7 +216,7 @@ def bAnd (s : State) : State × Res :=
     | _, _ => psErr s1 "typecheck"
   | _ => psErr s "stackunderflow"
 
-def bOr (s : State) : State × Res :=
+def bOr (s : VM) : VM × Res :=
   match s.stack with
   | b :: a :: rest =>
     let s1 := { s with stack := rest }
@@ -226,7 +226,7 @@ def bOr (s : State) : State × Res :=
     | _, _ => psErr s1 "typecheck"
   | _ => psErr s "stackunderflow"
 
-def bNot (s : State) : State × Res :=
+def bNot (s : VM) : VM × Res :=
   match s.stack with
   | [] => psErr s "stackunderflow"
   | .bool x :: rest => okRes { s with stack := .bool (!x) :: rest }
@@ -240,7 +240,7 @@ inductive Norm where
 
 def nameBytes (n : Name) : List UInt8 := n.toList.map (fun c => UInt8.ofNat c.toNat)
 
-def normalize (s : State) : Obj → Option Norm
+def normalize (s : VM) : Obj → Option Norm
   | .real b => some (.num b)
   | .int v => some (.num (realOfInt v))
   | .str r o l => some (.text (s.viewBytes r o l))
@@ -248,7 +248,7 @@ def normalize (s : State) : Obj → Option Norm
   | _ => none
 
 /-- the Go function `equal`; `none` = typecheck -/
-def equalObjs (s : State) (a b : Obj) : Option Bool :=
+def equalObjs (s : VM) (a b : Obj) : Option Bool :=
   match a, b with
   | .dict x, .dict y => some (x == y)
   | .int x, .int y => some (x == y)
@@ -264,7 +264,7 @@ def equalObjs (s : State) (a b : Obj) : Option Bool :=
         | .text x, .text y => some (x == y)
         | _, _ => some false
 
-def bEqNe (neg : Bool) (s : State) : State × Res :=
+def bEqNe (neg : Bool) (s : VM) : VM × Res :=
   match s.stack with
   | b :: a :: rest =>
     let s1 := { s with stack := rest }
@@ -278,7 +278,7 @@ def bNe := bEqNe true
 
 /-! ### array, string, dictionary creation -/
 
-def bArray (s : State) : State × Res :=
+def bArray (s : VM) : VM × Res :=
   match s.stack with
   | [] => psErr s "stackunderflow"
   | .int n :: rest =>
@@ -290,7 +290,7 @@ def bArray (s : State) : State × Res :=
       okRes (s1.push (.arr r 0 n.toNat))
   | _ => psErr s "typecheck"
 
-def bString (s : State) : State × Res :=
+def bString (s : VM) : VM × Res :=
   match s.stack with
   | [] => psErr s "stackunderflow"
   | .int n :: rest =>
@@ -301,7 +301,7 @@ def bString (s : State) : State × Res :=
       okRes (s1.push (.str r 0 n.toNat))
   | _ => psErr s "typecheck"
 
-def bDict (s : State) : State × Res :=
+def bDict (s : VM) : VM × Res :=
   match s.stack with
   | [] => psErr s "stackunderflow"
   | .int n :: rest =>
@@ -312,11 +312,11 @@ def bDict (s : State) : State × Res :=
       okRes (s1.push (.dict r))
   | _ => psErr s "typecheck"
 
-def bMatrix (s : State) : State × Res :=
+def bMatrix (s : VM) : VM × Res :=
   let (s1, r) := s.alloc (.objs #[.int 1, .int 0, .int 0, .int 1, .int 0, .int 0])
   okRes (s1.push (.arr r 0 6))
 
-def bCvx (s : State) : State × Res :=
+def bCvx (s : VM) : VM × Res :=
   match s.stack with
   | [] => psErr s "stackunderflow"
   | .arr r o l :: rest =>
@@ -326,7 +326,7 @@ def bCvx (s : State) : State × Res :=
 
 /-! ### dictionary stack and dictionaries -/
 
-def bBegin (s : State) : State × Res :=
+def bBegin (s : VM) : VM × Res :=
   match s.stack with
   | [] => psErr s "stackunderflow"
   | top :: rest =>
@@ -336,16 +336,16 @@ def bBegin (s : State) : State × Res :=
       | .dict r => okRes { s with stack := rest, dictStack := r :: s.dictStack, dictGhost := s.dictGhost.tail }
       | _ => psErr s "typecheck"
 
-def bEnd (s : State) : State × Res :=
+def bEnd (s : VM) : VM × Res :=
   if s.dictStack.length ≤ 2 then psErr s "dictstackunderflow"
   else okRes { s with dictStack := s.dictStack.tail, dictGhost := s.dictStack.head! :: s.dictGhost }
 
-def bCurrentdict (s : State) : State × Res :=
+def bCurrentdict (s : VM) : VM × Res :=
   match s.dictStack with
   | [] => (s, .err (.panic "currentdict: empty dictionary stack"))
   | d :: _ => okRes (s.push (.dict d))
 
-def bDef (s : State) : State × Res :=
+def bDef (s : VM) : VM × Res :=
   match s.stack with
   | v :: k :: rest =>
     match k with
@@ -356,7 +356,7 @@ def bDef (s : State) : State × Res :=
     | _ => psErr s "typecheck"
   | _ => psErr s "stackunderflow"
 
-def bLoad (s : State) : State × Res :=
+def bLoad (s : VM) : VM × Res :=
   match s.stack with
   | [] => psErr s "stackunderflow"
   | .name n :: rest =>
@@ -366,7 +366,7 @@ def bLoad (s : State) : State × Res :=
     | none => psErr s1 "undefined"
   | _ => psErr s "typecheck"
 
-def bKnown (s : State) : State × Res :=
+def bKnown (s : VM) : VM × Res :=
   match s.stack with
   | k :: d :: rest =>
     match d with
@@ -377,7 +377,7 @@ def bKnown (s : State) : State × Res :=
     | _ => psErr s "typecheck"
   | _ => psErr s "stackunderflow"
 
-def bWhere (s : State) : State × Res :=
+def bWhere (s : VM) : VM × Res :=
   match s.stack with
   | [] => psErr s "stackunderflow"
   | .name n :: rest =>
@@ -386,13 +386,13 @@ def bWhere (s : State) : State × Res :=
     | none => okRes { s with stack := .bool false :: rest }
   | _ => psErr s "typecheck"
 
-def bMaxlength (s : State) : State × Res :=
+def bMaxlength (s : VM) : VM × Res :=
   match s.stack with
   | [] => psErr s "stackunderflow"
   | .dict r :: rest => okRes { s with stack := .int ((s.getDict r).length + 1) :: rest }
   | _ => psErr s "typecheck"
 
-def bLength (s : State) : State × Res :=
+def bLength (s : VM) : VM × Res :=
   match s.stack with
   | [] => psErr s "stackunderflow"
   | o :: rest =>
@@ -403,7 +403,7 @@ def bLength (s : State) : State × Res :=
     | .name n | .op n => okRes (s1.push (.int n.length))
     | _ => psErr s1 "typecheck"
 
-def bInternaldict (s : State) : State × Res :=
+def bInternaldict (s : VM) : VM × Res :=
   match s.stack with
   | [] => psErr s "stackunderflow"
   | .int i :: rest =>
@@ -413,7 +413,7 @@ def bInternaldict (s : State) : State × Res :=
 
 /-! ### get / put / intervals / copy -/
 
-def bGet (s : State) : State × Res :=
+def bGet (s : VM) : VM × Res :=
   match s.stack with
   | sel :: obj :: rest =>
     let s1 := { s with stack := rest }
@@ -444,7 +444,7 @@ def bGet (s : State) : State × Res :=
     | _ => psErr s1 "typecheck"
   | _ => psErr s "stackunderflow"
 
-def bPut (s : State) : State × Res :=
+def bPut (s : VM) : VM × Res :=
   match s.stack with
   | value :: sel :: obj :: rest =>
     let s1 := { s with stack := rest }
@@ -473,7 +473,7 @@ def bPut (s : State) : State × Res :=
     | _ => psErr s1 "typecheck"
   | _ => psErr s "stackunderflow"
 
-def bGetinterval (s : State) : State × Res :=
+def bGetinterval (s : VM) : VM × Res :=
   match s.stack with
   | cnt :: idx :: obj :: rest =>
     match obj with
@@ -495,7 +495,7 @@ def bGetinterval (s : State) : State × Res :=
     | _ => psErr s "typecheck"
   | _ => psErr s "stackunderflow"
 
-def bPutinterval (s : State) : State × Res :=
+def bPutinterval (s : VM) : VM × Res :=
   match s.stack with
   | src :: idx :: dst :: rest =>
     match idx with
@@ -523,7 +523,7 @@ def bPutinterval (s : State) : State × Res :=
     | _ => psErr s "typecheck"
   | _ => psErr s "stackunderflow"
 
-def bCopy (s : State) : State × Res :=
+def bCopy (s : VM) : VM × Res :=
   match s.stack with
   | [] => psErr s "stackunderflow"
   | .int n :: rest =>
@@ -560,7 +560,7 @@ def bCopy (s : State) : State × Res :=
 
 /-! ### fonts and resources -/
 
-def bDefinefont (s : State) : State × Res :=
+def bDefinefont (s : VM) : VM × Res :=
   match s.stack with
   | font :: k :: rest =>
     match k with
@@ -571,7 +571,7 @@ def bDefinefont (s : State) : State × Res :=
     | _ => psErr s "typecheck"
   | _ => psErr s "stackunderflow"
 
-def bFindfont (s : State) : State × Res :=
+def bFindfont (s : VM) : VM × Res :=
   match s.stack with
   | [] => psErr s "stackunderflow"
   | .name n :: rest =>
@@ -580,7 +580,7 @@ def bFindfont (s : State) : State × Res :=
     | none => psErr s "invalidfont"
   | _ => psErr s "typecheck"
 
-def bDefineresource (s : State) : State × Res :=
+def bDefineresource (s : VM) : VM × Res :=
   match s.stack with
   | cls :: inst :: key :: rest =>
     match key with
@@ -602,7 +602,7 @@ def bDefineresource (s : State) : State × Res :=
     | _ => psErr s "typecheck"
   | _ => psErr s "stackunderflow"
 
-def bFindresource (s : State) : State × Res :=
+def bFindresource (s : VM) : VM × Res :=
   match s.stack with
   | cat :: keyObj :: rest =>
     match cat with
@@ -629,7 +629,7 @@ def bFindresource (s : State) : State × Res :=
 
 /-! ### misc -/
 
-def bType (s : State) : State × Res :=
+def bType (s : VM) : VM × Res :=
   match s.stack with
   | [] => psErr s "stackunderflow"
   | o :: _ =>
@@ -648,26 +648,26 @@ def bType (s : State) : State × Res :=
       | .cmapInfo _ => ""
     if tp == "" then psErr s "typecheck" else okRes (s.push (.name tp))
 
-def bCurrentfile (s : State) : State × Res := okRes (s.push .file)
+def bCurrentfile (s : VM) : VM × Res := okRes (s.push .file)
 
-def bClosefile (s : State) : State × Res :=
+def bClosefile (s : VM) : VM × Res :=
   match s.stack with
   | [] => psErr s "stackunderflow"
   | .file :: rest => ({ s with stack := rest }, .err .eof)
   | _ => psErr s "typecheck"
 
-def bNop (s : State) : State × Res := okRes s
+def bNop (s : VM) : VM × Res := okRes s
 
 /- `bindProc` and its `for i, elem := range proc` loop, structurally recursive on one
 fuel argument (one unit per element visited and per nested call); each element is read at
 iteration time, as Go does, because nested calls may write into the same store. -/
 mutual
-def bindProc : Nat → State → (ref off len : Nat) → (depth : Nat) → State × Res
+def bindProc : Nat → VM → (ref off len : Nat) → (depth : Nat) → VM × Res
   | 0, s, _, _, _, _ => (s, .fuel)
   | fuel + 1, s, ref, off, len, depth =>
     if depth > maxBindDepth then psErr s "limitcheck"
     else bindLoop fuel s ref off depth 0 len
-def bindLoop : Nat → State → (ref off depth i todo : Nat) → State × Res
+def bindLoop : Nat → VM → (ref off depth i todo : Nat) → VM × Res
   | 0, s, _, _, _, _, _ => (s, .fuel)
   | _ + 1, s, _, _, _, _, 0 => okRes s
   | fuel + 1, s, ref, off, depth, i, todo + 1 =>
@@ -691,10 +691,10 @@ def bindLoop : Nat → State → (ref off depth i todo : Nat) → State × Res
 end
 
 /-- total number of object slots in the heap: bounds the elements `bind` can visit per level -/
-def heapSlots (s : State) : Nat :=
+def heapSlots (s : VM) : Nat :=
   s.heap.foldl (fun n c => match c with | .objs a => n + a.size + 1 | _ => n + 1) 0
 
-def bBind (s : State) : State × Res :=
+def bBind (s : VM) : VM × Res :=
   match s.stack with
   | [] => psErr s "stackunderflow"
   | .proc r o l :: _ => bindProc ((heapSlots s + 2) * (maxBindDepth + 3)) s r o l 0
